@@ -417,6 +417,7 @@ func runC03(c *Ctx) {
 	c.rule("value-recursion-guarded", "outside the copier, the places that follow config values through interface fields (Pointerify narrowing an interface field to its default's concrete type; the overlay merging two interface-held pointees of one type) consult a visited set keyed on the pointer followed, and the overlay dereferences its operand only where it is a pointer", 4)
 	c.rule("out-settable", "Ptr/Map payloads of interface values, and deepCopyValue, copy into an addressable temporary reflect.New(T).Elem() (the map handler honours its memo only for settable outputs)", 2)
 	c.rule("same-pointer-installed", "in the leaf overlay a nil base pointer whose pointee type equals the layer's receives the layer's pointer itself (the copier memoised it for every other reference to the node)", 1)
+	c.rule("overlay-not-recopied", "no overlayer method feeds (a part of) its overlay operand - this stack's private deep copy of the source value - to the deep copier again (a second copy splits the identity of the pointers inside it)", 3)
 	c.rule("slice-window", "every slice the copier pre-allocates has the length and capacity of its input (the slice handler copies the whole capacity window)", 2)
 	c.rule("copier-fresh", "(shared with C02) references in the result are fresh: every exit of the pointer/map/slice handlers without fresh storage is explained by nil input / already-distinct output / unsettable output; interface payloads are re-boxed", 4)
 	c.rule("copier-state-fresh", "(shared with C02) memo state never survives from one copy to the next", 2)
@@ -439,6 +440,7 @@ func runC03(c *Ctx) {
 	c03ValueRecursion(c, "value-recursion-guarded")
 	c03SamePointerInstalled(c, "same-pointer-installed")
 	c03SliceWindow(c, cp, "slice-window")
+	c03OverlayNotRecopied(c, cp, "overlay-not-recopied")
 	for f := range cp.scc {
 		c.analysed(relName(f))
 	}
